@@ -36,6 +36,16 @@ RULE = (
     "every step the same per-call clauses apply at the step's path (no refusal, cache snapshot equal, files and bytes "
     "== target, link record), after a relinking step every file there is of the step's type by the same "
     "lstat/readlink/inode test, and the files and bytes below the other path are as before the step. "
+    "A plain history step onto a path that already holds exactly the target's files and bytes must itself return None and "
+    "change no lstat field there (the 'second checkout reports nothing to do' clause at every such step). "
+    "Target provenance dimension (drawn per case; every checkout of the case, history steps included, receives the target "
+    "in that form): loaded from the cache by its hash / the object build() returned, transferred whole / a sub-tree (or "
+    "single file) taken with Tree.load(big).get_obj(odb, prefix) out of a bigger cached tree built from "
+    "<prefix>/<target> plus drawn sibling files - the sub-tree's own <hash>.dir object was never added to the cache / "
+    "the built tree whose file objects were transferred one by one while its own .dir object was withheld. In every "
+    "provenance all file objects of the target are cached (verified), for the last two the harness verifies that the "
+    "target's .dir object is absent from the cache; all clauses (convergence, second checkout returns None and changes "
+    "nothing, link types, cache snapshot, link record) apply unchanged. "
     "Non-trivial = >=1 modified and >=1 added/removed file executed and effective L1 != L2; distinct = SHA-1 of case JSON."
 )
 ASSUMPTIONS = [
@@ -44,6 +54,10 @@ ASSUMPTIONS = [
     "reflink is unavailable here: [reflink, copy] is covered as its copy fallback",
     "history steps never edit the workspace: each step meets the target's own files at its path (as left by earlier "
     "steps, any link type) or a free path; a plain (non-relinking) step is only held to files/bytes, not to a link type",
+    "'cached target object' means: every file object the target names is in the cache. A directory target's own .dir "
+    "object need not be stored there (Tree.get_obj sub-trees as used for checking out part of a directory, in-memory "
+    "trees from build()): checkout only reads the tree entries of the object it is handed; HEAD's _diff explicitly "
+    "keeps such an unchanged directory entry out of the work list",
     "'hard link' is judged by inode identity with the cache object, whatever other hard links the object has elsewhere",
     "the link-record token is recomputed by the harness from the documented rule of get_mtime_and_size "
     "(md5 of the sorted {path: mtime} JSON for a directory, rounded ns for a file)",
@@ -55,6 +69,7 @@ TYPE_NAMES = ["hardlink", "copy", "symlink", "reflink+copy", "copy", "symlink", 
 # link types of history steps: the two kinds of link to the cache object interact (both are read through stat),
 # so they are drawn more often than the independent copy
 HIST_TYPES = ["hardlink", "symlink", "copy", "hardlink", "symlink", "reflink+copy", "hardlink", "symlink"]
+PROVS = ["loaded", "subtree", "withheld", "built", "loaded", "subtree", "withheld", "loaded"]
 DT = st.one_of(
     st.integers(1_000, 5_000).map(lambda x: x),               # microseconds
     st.integers(1_000_000, 10_000_000_000),
@@ -145,6 +160,20 @@ def cases(draw, max_files=8):
          "relink": draw(st.sampled_from([True, False, True, True]))}
         for _ in range(n)
     ]
+    # provenance of the target object handed to checkout: loaded from the cache by its hash / the object build()
+    # returned, transferred whole / a sub-tree (or file) taken with Tree.get_obj(prefix) out of a bigger cached tree
+    # (its own .dir object was never added to the cache) / the built tree whose files were transferred without its
+    # own .dir object. In every provenance all FILE objects of the target are cached.
+    case["prov"] = draw(st.sampled_from(PROVS))
+    if case["prov"] == "withheld" and shape == "file":
+        case["prov"] = "built"   # a single file has no directory object to withhold
+    if case["prov"] == "subtree":
+        case["prefix"] = draw(st.lists(gen.names(), min_size=1, max_size=2))
+        case["siblings"] = [
+            list(t) for t in draw(st.lists(st.tuples(gen.names(), gen.small_contents()), max_size=2,
+                                           unique_by=lambda t: t[0]))
+            if t[0] != case["prefix"][0]
+        ]
     return case
 
 
@@ -255,14 +284,18 @@ def run_case(case, ctx):
     from dvc_data.hashfile.build import build
     from dvc_data.hashfile.checkout import CheckoutError, LinkError, PromptError, checkout
     from dvc_data.hashfile.transfer import transfer
+    from dvc_data.hashfile.tree import Tree
 
     fs = LocalFileSystem()
     is_tree = case["shape"] == "tree"
+    prov = case.get("prov", "loaded")
+    if prov == "withheld" and not is_tree:
+        prov = "built"
     local = case["kind"] == "local"
     l1, l2 = EFF[case["l1"]], EFF[case["l2"]]
     viols = []
     classes = [f"kind={case['kind']}", f"state={'on' if case['state'] else 'off'}", f"{l1}->{l2}",
-               f"plan={case['plan']}", f"shape={case['shape']}", f"L2list={case['l2']}"]
+               f"plan={case['plan']}", f"shape={case['shape']}", f"L2list={case['l2']}", f"prov={prov}"]
     done = {"modify": 0, "delete": 0, "add": 0, "touch": 0, "ln": 0}
 
     with ctx.tmpdir() as d:
@@ -279,17 +312,38 @@ def run_case(case, ctx):
                 return ops.make_odb(case["kind"], cache_dir, **cfg)
 
             odb1 = odb_for(case["l1"])
-            src = os.path.join(d, "src")
+            prefix = tuple(case.get("prefix", ())) if prov == "subtree" else ()
+            build_root = os.path.join(d, "src")
+            src = os.path.join(build_root, *prefix)   # subtree: the target's files live below <bigger tree>/<prefix>
             if is_tree:
                 flat = gen.materialise(case["tree"], src)
             else:
                 flat = {"": gen.content_bytes(case["content"])}
                 gen.write_file(src, flat[""])
+            if prov == "subtree":
+                for name, c in case.get("siblings", []):
+                    if name != prefix[0]:
+                        gen.write_file(os.path.join(build_root, name), gen.content_bytes(c))
             manifest = ref.tree_manifest(flat)
-            staging, _meta, obj = build(odb1, src, fs, "md5")
-            res = transfer(staging, odb1, {obj.hash_info}, shallow=False)
+            staging, _meta, obj = build(odb1, build_root, fs, "md5")
+            if prov == "withheld":
+                # only the files are transferred: the tree's own .dir object stays out of the cache
+                res = transfer(staging, odb1, {hi for _k, _m, hi in obj}, shallow=False)
+            else:
+                res = transfer(staging, odb1, {obj.hash_info}, shallow=False)
             if res.failed:
                 raise HarnessError(f"setup transfer failed: {res.failed}")
+
+            def target_for(odb):
+                """The target object of this case's provenance, as seen through `odb`."""
+                if prov == "loaded":
+                    return oload(odb, obj.hash_info)
+                if prov in ("built", "withheld"):
+                    return obj
+                sub = Tree.load(odb, obj.hash_info).get_obj(odb, prefix)
+                if sub is None or isinstance(sub, Tree) != is_tree:
+                    raise HarnessError(f"get_obj({prefix!r}) did not return the sub-object: {sub!r}")
+                return sub
             for i, c in enumerate(case["extra"]):
                 p = os.path.join(d, f"extra{i}")
                 gen.write_file(p, gen.content_bytes(c))
@@ -304,6 +358,18 @@ def run_case(case, ctx):
                 if bad:
                     viols.append(Viol("setup-unprotected", f"objects {bad[:2]} not 0o444 after transfer into a LocalHashFileDB"))
                     return Result(viols, False, classes)
+
+            if is_tree:
+                # the premise of the two new provenances: a genuine directory object, every file cached, whose own
+                # .dir object is not stored in the cache
+                root_oid = target_for(odb1).hash_info.value
+                if not root_oid.endswith(".dir"):
+                    raise HarnessError(f"directory target without a .dir hash: {root_oid!r}")
+                absent = not os.path.lexists(os.path.join(cache_dir, root_oid[:2], root_oid[2:]))
+                if absent != (prov in ("subtree", "withheld")):
+                    raise HarnessError(f"prov={prov}: target's own .dir object {'absent from' if absent else 'present in'} the cache")
+                if absent:
+                    classes.append("root-dir-object-not-cached")
 
             ws = ws1 = os.path.join(d, "ws")
 
@@ -428,7 +494,7 @@ def run_case(case, ctx):
                         add_object(odb, oid, data)
 
             # ---- phase 1: first checkout with L1 -----------------------------------------
-            target1 = obj
+            target1 = obj if prov != "subtree" else target_for(odb1)
             cache_ops("pre1", odb1, target1)
             if viols:
                 return Result(viols, False, classes)
@@ -536,7 +602,7 @@ def run_case(case, ctx):
 
             # ---- phase 3: configured type L2 ---------------------------------------------
             odb2 = odb_for(case["l2"])
-            target = oload(odb2, obj.hash_info)
+            target = target_for(odb2)
             if not is_tree and os.path.lexists(ws):
                 r0 = snap_ws(ws).get("")
                 if r0 and r0.get("bytes") == flat[""] and (r0["kind"] == "symlink" or r0["nlink"] > 1):
@@ -606,7 +672,7 @@ def run_case(case, ctx):
                 other = ws1 if stp["at"] else ws2
                 want = EFF[stp["type"]]
                 odb_h = odb_for(stp["type"])
-                tgt_h = oload(odb_h, obj.hash_info)
+                tgt_h = target_for(odb_h)
                 label = "hist-relink" if stp["relink"] else "hist-plain"
                 pre = snap_ws(at)
                 pre_types = {observed_type(pre[rel], cpath(manifest[rel])) for rel in flat if rel in pre}
@@ -625,9 +691,17 @@ def run_case(case, ctx):
                     if "copy" in pre_types and multilinked:
                         classes.append("hist:copy-of-multilinked-object")
                 o_before = files_of(snap_ws(other))
-                if call(label, odb_h, tgt_h, at=at, force=True, relink=stp["relink"]) == "raised":
+                r_h = call(label, odb_h, tgt_h, at=at, force=True, relink=stp["relink"])
+                if r_h == "raised":
                     break
                 check_equal(label, at=at)
+                if not stp["relink"] and files_of(pre) == flat:
+                    # a plain checkout onto a path that already holds exactly the target: nothing to do
+                    classes.append("hist-plain:already-equal")
+                    if r_h is not None:
+                        viols.append(Viol("repeat-not-noop:hist", f"plain checkout at {os.path.basename(at)!r}, which already "
+                                          f"held exactly the target, returned {r_h!r}, expected None (nothing to do)"))
+                    _same_snapshot(viols, pre, snap_ws(at), "hist-plain")
                 if stp["relink"]:
                     check_types(label, want, at=at)
                 if files_of(snap_ws(other)) != o_before:
